@@ -6,7 +6,7 @@ from typing import Any, Dict, List, Optional, Tuple
 
 from ..interp import Config, Interp
 from ..report import Ctx
-from ..values import (ALL_KINDS, Frag, SBool, SDict, SFunc, SInt, SList, SNew, SObj, SOpaque, SSplat, SStr, Sym, Unmodelled, short)
+from ..values import (ALL_KINDS, Frag, SBool, SDict, SFunc, SInt, SList, SNew, SObj, SOpaque, SSplat, SStr, SUnknown, Sym, Unmodelled, short)
 
 CORE = "htmltools._core"
 FS_MUT = {"shutil.rmtree", "os.makedirs", "shutil.copy2", "shutil.copytree", "shutil.copy", "shutil.copyfile", "os.mkdir", "os.remove", "os.unlink",
@@ -45,6 +45,46 @@ def _spm_item(v: Any, key: str) -> Optional[Any]:
         if c is not None and getattr(c["func"], "qual", "") == "HTMLDependency.source_path_map":
             return c
     return None
+
+
+def _carried_in(v: Any, depth: int = 0, seen: Optional[set] = None) -> Optional[Any]:
+    """A loop-carried variable (one the loop body itself rebinds) among the values v was computed from, if any."""
+    seen = set() if seen is None else seen
+    if depth > 10 or id(v) in seen:
+        return None
+    seen.add(id(v))
+    if isinstance(v, SObj) and v.meta.get("carried"):
+        return v
+    if isinstance(v, SUnknown) and v.why.startswith("loop-carried "):
+        return v
+    subs: List[Any] = []
+    if isinstance(v, SStr):
+        for f in v.frags:
+            subs += [f.a, f.b, f.c]
+    elif isinstance(v, SObj):
+        subs += [v.meta.get(k) for k in ("attr_of", "item_of", "call", "copy_of", "list_of")]
+    elif isinstance(v, SOpaque):
+        subs += list(v.__dict__.values())
+    elif isinstance(v, SList):
+        subs += list(v.items or []) + [v.base, v.elt]
+    elif isinstance(v, SSplat):
+        subs.append(v.value)
+    elif isinstance(v, dict):
+        subs += list(v.values())
+    elif isinstance(v, (list, tuple)):
+        subs += list(v)
+    for x in subs:
+        if isinstance(x, (Sym, dict, list, tuple, Frag)) and not isinstance(x, str):
+            r = _carried_in(x, depth + 1, seen) if not isinstance(x, Frag) else _carried_in([x.a, x.b, x.c], depth + 1, seen)
+            if r is not None:
+                return r
+    return None
+
+
+def _carried_name(v: Any) -> str:
+    if isinstance(v, SUnknown):
+        return v.why.split(" ", 1)[1]
+    return str(getattr(v, "name", "?")).split("@")[0]
 
 
 def copy_to_obligations(ctx: Ctx, I: Interp) -> None:
@@ -140,6 +180,17 @@ def copy_to_obligations(ctx: Ctx, I: Interp) -> None:
             return False
         ctx.check(len(cp) >= 1 and all(_same_files(e.value) for _, e in cp), "C12.P4", "the copy loop walks the same file list that was verified", where,
                   f"copy loop over {[short(e.value) for _, e in cp]} / verified {short(ve.value)}", "the files copied are not the files verified")
+        # each file goes from <source>/f to <target>/f: neither base directory is a variable the loop itself rebinds
+        for _, ce in cp:
+            for x in eff:
+                if x.__dict__.get("in_loop") != ce.target or not _is_fs_mut(x) or x.kind != "extcall":
+                    continue
+                for a in list(x.value or []):
+                    cv = _carried_in(a)
+                    ctx.check(cv is None, "C12.P3", "inside the copy loop every path is computed from the fixed source/target directories and the current file", where,
+                              f"{_q(x)}: {_carried_name(cv) if cv is not None else 'fixed bases'}",
+                              f"{_q(x)} gets a path computed from `{_carried_name(cv)}`, which the loop body rebinds: from the second "
+                              f"file on, the file lands somewhere else than the URL says", witness="script=[{'src': 'js/a.js'}, {'src': 'b.js'}]")
         # rmtree (guarded by existence of the target) precedes mkdir and copies
         rm = [i for i in muts if _q(eff[i]) == "shutil.rmtree"]
         rest = [i for i in muts if _q(eff[i]) != "shutil.rmtree"]
@@ -328,6 +379,13 @@ def _truthy_lp(l: Any, lp: SObj) -> bool:
     return res
 
 
+def _cond_text(a: Any) -> str:
+    """A path condition without the run-specific object numbers."""
+    if isinstance(a, tuple):
+        return "(" + " ".join(_cond_text(x) for x in a if not isinstance(x, int)) + ")"
+    return str(a)
+
+
 def save_html_obligations(ctx: Ctx, I: Interp) -> None:
     prog = ctx.prog
     where = f"{CORE}:HTMLDocument.save_html"
@@ -362,8 +420,8 @@ def save_html_obligations(ctx: Ctx, I: Interp) -> None:
         body_paths_with_copy = [e for e in cps if e.__dict__.get("in_loop")]
         conds = [(a, v) for a, v in l.atoms if isinstance(a, tuple) and a[0] in ("extcall", "truthy", "eq", "cmp", "in") and not (a[0] in ("truthy", "truthy-kind") and a[1] == ld.uid)]
         ctx.check(len(body_paths_with_copy) == 1 and not conds, "C12.P2", "every dependency is copied unconditionally", where,
-                  f"{len(body_paths_with_copy)} copy_to calls under {[a[:2] for a, _ in conds]}",
-                  f"a dependency is not copied on some path (conditions {[a[:2] for a, _ in conds]}): stale or missing files stay in its target directory while the URLs point there",
+                  f"{len(body_paths_with_copy)} copy_to calls under {sorted({_cond_text(a) for a, _ in conds})}",
+                  f"a dependency is not copied on some path (conditions {sorted({_cond_text(a) for a, _ in conds})}): stale or missing files stay in its target directory while the URLs point there",
                   witness="save_html twice after the source files changed (same version)")
         for e in body_paths_with_copy:
             kwc = (e.extra or {}).get("kwargs", {})
@@ -443,7 +501,12 @@ def check(ctx: Ctx) -> None:
                      f"`{q}` on the save_html / copy_to path is memoised (@{d}): a path or directory computed for an earlier call (another working directory, "
                      f"another state of the file system) is reused, so the URLs or the copied files no longer correspond to the current source",
                      witness="save a dependency with a relative subdir, os.chdir(), save another one with the same relative subdir")
-    ctx.ok("C12.P2", "no function on the save_html / copy_to path carries a cache decorator")
+        from .c18 import ALLOWED_GLOBALS
+        for node, qual, what in nondet.global_state_sites(ctx.prog, idx, f, ALLOWED_GLOBALS):
+            ctx.fail("C12.P2", q, qual, f"`{q}` on the save_html / copy_to path reads or writes {what}: a directory or URL remembered from an earlier dependency "
+                     f"or call is handed to a later one, so the files copied are not the ones the URLs name",
+                     witness="two dependencies with the same subdir in different packages, saved in one process", line=getattr(node, "lineno", None))
+    ctx.ok("C12.P2", "no function on the save_html / copy_to path carries a cache decorator or keeps module-level state")
     # the settings used for the URLs are the ones save_html copies with: every link of the call chain forwards them
     from .c11 import forwarding_chain
     forwarding_chain(ctx, I, "C12.P2")
